@@ -14,6 +14,7 @@ CONSTANTS
   Tag = "C10"
   SoftTargets <- None
   HardTargets <- None
+  LinkCounts = {}
   SureCases = FALSE
   OnlyLastMayFail = TRUE
 SPECIFICATION LSpec
